@@ -310,30 +310,46 @@ import sys, time, json
 sys.setrecursionlimit(10000)
 from cxxheaderparser.simple import parse_string
 from cxxheaderparser.errors import CxxParseError
+from cxxheaderparser import lexer as _lx
 from vf.props.c07 import nest_source
 
-def family_times(name, depths=(20, 40, 80, 160), budget=20.0):
+READS = [0]
+
+def _count(cls, name):
+    orig = getattr(cls, name)
+    def wrapped(self, *a, **kw):
+        READS[0] += 1
+        return orig(self, *a, **kw)
+    setattr(cls, name, wrapped)
+
+# every token the parser pulls goes through one of these (LexerTokenStream and BoundedTokenStream inherit them)
+for _n in ("token", "token_eof_ok", "token_newline_eof_ok"):
+    _count(_lx.TokenStream, _n)
+
+def family_times(name, depths=(20, 40, 80, 160), budget=20.0, read_budget=30000000):
     ts = []
     for d in depths:
         s = nest_source(name, d)
+        READS[0] = 0
         t = time.perf_counter()
         try:
             parse_string(s)
         except CxxParseError:
             pass
-        ts.append((d, len(s), time.perf_counter() - t))
-        if ts[-1][2] > budget:
+        ts.append((d, len(s), time.perf_counter() - t, READS[0]))
+        if ts[-1][2] > budget or READS[0] > read_budget:
             break
     return ts
 
-def superpoly(ts, budget=20.0):
-    # doubling the depth multiplies the time by more than 2^3.5 twice in a row (or the budget is blown)
-    r = [b[2] / a[2] for a, b in zip(ts, ts[1:]) if a[2] > 0.002]
+def superpoly(ts, budget=20.0, read_budget=30000000):
+    # deterministic measure: token reads of the parser.  Doubling the depth multiplies the reads by more than 2^3.5 twice in
+    # a row (cubic growth gives 8), or a single parse blows the read / time budget
+    r = [b[3] / a[3] for a, b in zip(ts, ts[1:]) if a[3] > 200]
     run = best = 0
     for x in r:
         run = run + 1 if x > 11.3 else 0
         best = max(best, run)
-    return best >= 2 or ts[-1][2] > budget
+    return best >= 2 or ts[-1][2] > budget or ts[-1][3] > read_budget
 """
 
 
@@ -357,11 +373,11 @@ def parser_growth(ck):
             ts, flag = json.loads(out.strip().splitlines()[-1])
         except subprocess.TimeoutExpired:
             p.kill()
-            ts, flag = [(0, 0, 90.0)], True
+            ts, flag = [(0, 0, 90.0, 0)], True
         except Exception as ex:  # noqa
             raise HarnessError(f"family timing child failed for {name}: {ex} {err[-500:]}")
         ck.traces += len(ts)
-        ck.sample(dict(family=name, times=[(d, round(t, 4)) for d, _, t in ts]), limit=60)
+        ck.sample(dict(family=name, depth_seconds_tokenreads=[(x[0], round(x[2], 4), x[3]) for x in ts]), limit=60)
         if flag:
             bad.append(((name, None), ts))
     return bad
@@ -457,12 +473,12 @@ def run(tier):
     # (3) parser nesting families (real code, concrete)
     t = time.time()
     bad = parser_growth(ck)
-    ck.sub("parser nesting families (parse_string timing)", "replay", "holds" if not bad else "flagged",
+    ck.sub("parser nesting families (token reads of parse_string per depth; time budget only as a hard stop)", "replay", "holds" if not bad else "flagged",
            families=len(NEST_FAMILIES), wall_s=round(time.time() - t, 1))
     for fam, times in bad:
         body = (FAMILY_SNIPPET + f"\nts = family_times({fam[0]!r})\nfor x in ts: print(x)\nsys.exit(1 if superpoly(ts) else 0)\n")
         path = ck.write_replay(body)
-        ck.violation(f"parser time grows super-polynomially on family {fam[0]}: {[(d, round(t, 3)) for d, _, t in times]}", path,
+        ck.violation(f"parser work grows super-polynomially on family {fam[0]}: (depth, seconds, token reads) {[(x[0], round(x[2], 3), x[3]) for x in times]}", path,
                      key=dict(kind="parser-nesting", family=fam[0]))
     ck.extra["explanation"] = ("regex -> z3 encodings of every token rule: ambiguity and step-count queries decided by z3 for all "
                                "strings up to the bound; flagged witnesses pumped and timed on the real parse_string")
